@@ -29,6 +29,9 @@ var c08Binds = []struct{ key, action string }{
 	{"alt-b", "backward-delete-char+put(b)"},
 	{"alt-d", "beginning-of-line+delete-char+put(a)"},
 	{"alt-f", "unix-word-rubout+put(ab)"},
+	// search is disabled by the last action of a key whose earlier actions ask for a new search
+	{"alt-g", "toggle-sort+toggle-search"},
+	{"alt-h", "exclude+toggle-search"},
 }
 
 func genDelay(r *zsim.Rng) int {
@@ -133,7 +136,7 @@ func genC08Plan(r *zsim.Rng) *sysPlan {
 			ev.Keys = []string{"ctrl-u", "ctrl-w"}[r.Intn(2)]
 		case k < 19:
 			ev.Keys = c08Binds[r.Intn(len(c08Binds))].key
-			if ev.Keys == "alt-p" {
+			if ev.Keys == "alt-p" || ev.Keys == "alt-g" || ev.Keys == "alt-h" {
 				// the query that gets frozen is only well defined once the coordinator has seen the latest one
 				p.Events = append(p.Events, sysEvent{Kind: "settle"})
 			}
